@@ -1086,18 +1086,20 @@ pub fn sublist3(list: &Value, position_value: &Value, length_value: &Value) -> V
           if position_number.is_positive() {
             if let Some(position) = position_number.to_usize() {
               let first = position - 1;
-              let last = first + length;
-              if first < items.len() && last <= items.len() {
-                return Value::List(Values::new(items.as_vec()[first..last].to_vec()));
+              if let Some(last) = first.checked_add(length) {
+                if first < items.len() && last <= items.len() {
+                  return Value::List(Values::new(items.as_vec()[first..last].to_vec()));
+                }
               }
             }
           }
           if position_number.is_negative() {
             if let Some(position) = position_number.abs().to_usize() {
               if let Some(first) = items.len().checked_sub(position) {
-                let last = first + length;
-                if first < items.len() && last <= items.len() {
-                  return Value::List(Values::new(items.as_vec()[first..last].to_vec()));
+                if let Some(last) = first.checked_add(length) {
+                  if first < items.len() && last <= items.len() {
+                    return Value::List(Values::new(items.as_vec()[first..last].to_vec()));
+                  }
                 }
               }
             }
